@@ -1,7 +1,250 @@
-//! C28 — not implemented yet.
-use vmon::report::Args;
+//! C28 — standalone compression kernels round trip (FSST, FastLanes bit-packing).
+//!
+//! Deciding oracle: observed outputs of the real kernels (`fsst::fsst::{compress, decompress}`,
+//! `lance_bitpacking::BitPacking::{unchecked_pack, unchecked_unpack}`) on generated inputs;
+//! `decompress(compress(x)) == x` or `compress` returned `Err`; `unpack(pack(x)) == x` for x masked
+//! to the width. The generators / oracles live in `k28.rs` (shared with the Miri leg in /verif/san).
+use crate::k28::*;
+use crate::prng::Rng;
+use serde_json::json;
+use std::sync::atomic::{AtomicU64, Ordering};
+use vmon::report::{Args, Report, Tier};
 
-pub fn run(_args: &Args) -> i32 {
-    eprintln!("HARNESS-ERROR C28 not implemented");
-    2
+const FSST_STREAM: u64 = 1 << 40;
+const BP_STREAM: u64 = 2 << 40;
+
+fn fsst_case_for(seed: u64, idx: u64, scale: u32) -> (FsstCase, Rng) {
+    let mut rng = Rng::for_case(seed, FSST_STREAM + idx);
+    let kind = FSST_KINDS[(idx % FSST_KINDS.len() as u64) as usize];
+    let case = gen_fsst(&mut rng, kind, scale);
+    (case, rng)
+}
+
+fn bp_one(seed: u64, ty: usize, width: usize, pat: usize, rep: u64, corrupt: bool) -> Result<BpObs, Failure> {
+    let idx = BP_STREAM + (((ty * 65 + width) * 16 + pat) as u64) * 4096 + rep;
+    let mut rng = Rng::for_case(seed, idx);
+    let p = BP_PATTERNS[pat];
+    match ty {
+        0 => bp_roundtrip::<u8>(&mut rng, width, p, corrupt),
+        1 => bp_roundtrip::<u16>(&mut rng, width, p, corrupt),
+        2 => bp_roundtrip::<u32>(&mut rng, width, p, corrupt),
+        _ => bp_roundtrip::<u64>(&mut rng, width, p, corrupt),
+    }
+}
+
+const TY_BITS: [usize; 4] = [8, 16, 32, 64];
+const TY_NAME: [&str; 4] = ["u8", "u16", "u32", "u64"];
+
+fn selftest(args: &Args) -> i32 {
+    // corrupt the observation (one bit of the packed / compressed buffer) and require the oracle to fire
+    let mut fired = 0;
+    let mut total = 0;
+    for ty in 0..4 {
+        for width in 1..=TY_BITS[ty] {
+            total += 1;
+            if bp_one(args.seed, ty, width, 0, 0, true).is_err() {
+                fired += 1;
+            } else {
+                eprintln!("selftest: bit flip NOT detected for {} w{}", TY_NAME[ty], width);
+            }
+        }
+    }
+    for idx in 0..(FSST_KINDS.len() as u64 * 2) {
+        let (case, mut rng) = fsst_case_for(args.seed, idx, 10);
+        let tot: usize = case.strings.iter().map(|s| s.len()).sum();
+        if tot < 64 {
+            continue;
+        }
+        total += 1;
+        if run_fsst_case(&case, &mut rng, true).is_err() {
+            fired += 1;
+        } else {
+            eprintln!("selftest: corruption NOT detected for fsst case {idx} kind {}", case.kind);
+        }
+    }
+    println!("SELFTEST C28 fired={fired} of {total}");
+    if fired == total {
+        0
+    } else {
+        2
+    }
+}
+
+pub fn run(args: &Args) -> i32 {
+    if args.extra.contains_key("selftest") {
+        return selftest(args);
+    }
+    let report = Report::new(
+        args,
+        "exploration",
+        "FSST: seeded byte-string arrays of 14 kinds (text, random, all-256, repeats, tiny, huge, threshold boundary, 0xFF-heavy, 511-chunk lengths, mixed, below-threshold, empty, skewed, prefixes) x i32/i64 offsets x optional non-zero first offset; non-trivial iff the encoder really ran (encoder switch on), distinct by (kind, offset width, #symbols, ratio bucket, log2 sizes). Bit-packing: ALL (u8/u16/u32/u64, width 0..=bits) pairs x 9 value patterns x reps on 1024-value chunks masked to the width with garbage-prefilled guarded outputs; non-trivial iff width>0 and some value non-zero, distinct by (type,width,pattern).",
+        (45, 600),
+    )
+    .with_min_nontrivial(400);
+    report.assume("FSST callers size output buffers like lance-encoding does: compress out = 2x input bytes and 2x offsets, decompress out = 8x compressed bytes (fsst's own documented minimum of 1x / 3x is smaller; see NOTES.md)");
+    report.assume("bit-packing values are masked to the width (the property's precondition); unmasked inputs are out of scope");
+
+    if let Some(path) = &args.replay {
+        return replay(args, &report, path);
+    }
+
+    // ---------------- bit-packing: exhaustive over (type, width) ----------------
+    let reps_random: u64 = args.tier.pick(24, 600);
+    let reps_other: u64 = args.tier.pick(3, 40);
+    let mut pairs = vec![];
+    for ty in 0..4 {
+        for width in 0..=TY_BITS[ty] {
+            pairs.push((ty, width));
+        }
+    }
+    let n_pairs = pairs.len();
+    let next = AtomicU64::new(0);
+    let threads = std::thread::available_parallelism().map(|x| x.get()).unwrap_or(8).min(16);
+    std::thread::scope(|s| {
+        for _ in 0..threads {
+            s.spawn(|| loop {
+                let k = next.fetch_add(1, Ordering::Relaxed) as usize;
+                if k >= pairs.len() {
+                    break;
+                }
+                let (ty, width) = pairs[k];
+                for (pi, p) in BP_PATTERNS.iter().enumerate() {
+                    let reps = if *p == "random" { reps_random } else { reps_other };
+                    for rep in 0..reps {
+                        match bp_one(args.seed, ty, width, pi, rep, false) {
+                            Ok(o) => {
+                                report.case(if width > 0 && o.nonzero { Some(o.sig) } else { None });
+                                report.count("bitpack_chunks", 1);
+                                report.count("bitpack_values_compared", 1024);
+                            }
+                            Err(f) => {
+                                report.case(None);
+                                report.violation(
+                                    &f.sig,
+                                    &f.what,
+                                    json!({"engine":"bitpack","seed":args.seed,"type":TY_NAME[ty],"ty":ty,"width":width,
+                                           "pattern":p,"pat":pi,"rep":rep,"detail":f.detail}),
+                                );
+                            }
+                        }
+                    }
+                }
+                report.count("bitpack_type_width_pairs", 1);
+            });
+        }
+    });
+    report.set("bitpack_pairs_expected", json!(n_pairs));
+    report.exhaustive(report.counter("bitpack_type_width_pairs") == n_pairs as u64);
+    report.set(
+        "exhaustive_subspace",
+        json!("all (integer type, bit width) pairs of the bit-packing kernels: 9+17+33+65 = 124"),
+    );
+
+    // ---------------- FSST ----------------
+    let max_cases: u64 = args.tier.pick(700, 60_000);
+    let scale = args.tier.pick(30, 100);
+    let next = AtomicU64::new(0);
+    std::thread::scope(|s| {
+        for _ in 0..threads {
+            s.spawn(|| loop {
+                let idx = next.fetch_add(1, Ordering::Relaxed);
+                if idx >= max_cases || !report.time_left() {
+                    break;
+                }
+                let (case, mut rng) = fsst_case_for(args.seed, idx, scale);
+                let r = run_fsst_case(&case, &mut rng, false);
+                match r {
+                    Ok(o) => {
+                        report.count("fsst_arrays", 1);
+                        report.count(&format!("fsst_kind_{}", case.kind), 1);
+                        if let Some(e) = &o.rejected {
+                            report.rejected();
+                            report.case(None);
+                            if report.counter("fsst_rejected_logged") < 3 {
+                                report.count("fsst_rejected_logged", 1);
+                                report.sample(json!({"fsst_rejected": e, "kind": case.kind, "strings": o.n_strings, "bytes": o.in_bytes}));
+                            }
+                            continue;
+                        }
+                        report.count("fsst_strings_compared", o.n_strings as u64);
+                        report.count("fsst_bytes_compared", o.in_bytes as u64);
+                        if o.encoder_on {
+                            report.count("fsst_encoder_on", 1);
+                            report.count(if case.wide { "fsst_encoded_i64" } else { "fsst_encoded_i32" }, 1);
+                            report.count("fsst_compressed_bytes", o.out_bytes as u64);
+                            if o.out_bytes > o.in_bytes {
+                                report.count("fsst_expanded_outputs", 1);
+                            }
+                            report.case(Some(o.sig));
+                            if idx < 6 {
+                                report.sample(json!({"fsst": {"case": idx, "kind": case.kind, "offsets": if case.wide {64} else {32},
+                                    "strings": o.n_strings, "in_bytes": o.in_bytes, "compressed_bytes": o.out_bytes,
+                                    "symbols": o.n_symbols, "first_offset": case.lead}}));
+                            }
+                        } else {
+                            report.count("fsst_copy_path", 1);
+                            report.case(None);
+                        }
+                    }
+                    Err(f) => {
+                        report.case(None);
+                        report.violation(
+                            &f.sig,
+                            &f.what,
+                            json!({"engine":"fsst","seed":args.seed,"case":idx,"scale":scale,"kind":case.kind,"wide":case.wide,
+                                   "lead":case.lead,"n_strings":case.strings.len(),"detail":f.detail}),
+                        );
+                    }
+                }
+            });
+        }
+    });
+    if args.tier == Tier::Quick {
+        report.set("note", json!("quick tier: Miri leg over the same generators runs from /verif/san/legs/C28.sh"));
+    }
+    report.finish()
+}
+
+fn replay(args: &Args, report: &Report, path: &str) -> i32 {
+    if std::env::var("VERIF_EVIDENCE_OUT").is_err() {
+        std::env::set_var("VERIF_EVIDENCE_OUT", format!("{}/work/replay-evidence-C28.json", vmon::report::verif_root()));
+    }
+    let Ok(txt) = std::fs::read_to_string(path) else {
+        report.harness_error("cannot read replay file");
+        return report.finish();
+    };
+    let v: serde_json::Value = serde_json::from_str(&txt).unwrap_or_default();
+    let w = &v["witness"];
+    let seed = w["seed"].as_u64().unwrap_or(args.seed);
+    let res = match w["engine"].as_str() {
+        Some("bitpack") => bp_one(
+            seed,
+            w["ty"].as_u64().unwrap_or(0) as usize,
+            w["width"].as_u64().unwrap_or(0) as usize,
+            w["pat"].as_u64().unwrap_or(0) as usize,
+            w["rep"].as_u64().unwrap_or(0),
+            false,
+        )
+        .map(|o| o.sig),
+        Some("fsst") => {
+            let (case, mut rng) = fsst_case_for(seed, w["case"].as_u64().unwrap_or(0), w["scale"].as_u64().unwrap_or(30) as u32);
+            run_fsst_case(&case, &mut rng, false).map(|o| o.sig)
+        }
+        _ => {
+            report.harness_error("replay file has no known engine");
+            return report.finish();
+        }
+    };
+    match res {
+        Ok(sig) => {
+            report.case(Some(sig));
+            report.case(Some(sig ^ 1));
+            println!("REPLAY C28: case passes");
+        }
+        Err(f) => {
+            report.violation(&f.sig, &f.what, w.clone());
+        }
+    }
+    let r = Report::finish(report);
+    if r == 2 { 0 } else { r }
 }
